@@ -66,6 +66,7 @@ class Model:
         self.metrics = []
         self.params = {}
         self.partition = None
+        self.partition2 = None
         self.log = []          # declaration log: (kind, object)
 
 
@@ -106,6 +107,12 @@ def class_params(env, key, tag=""):
     """symbolic class parameters with the documented admissibility as path hypotheses"""
     cls, pnames = get_class(key)
     p = {}
+    if key == 'symlin':
+        # eigenvalue bounds of a symmetric operator: any reals with mu <= L (the documentation puts no sign restriction)
+        p['mu'] = env.real(tag + 'mu')
+        p['L'] = env.real(tag + 'L')
+        env.assume(env.le(p['mu'], p['L']))
+        return cls, p
     for n in pnames:
         p[n] = env.real(tag + n, lo=0, lo_strict=(n in ('L', 'M', 'D', 'beta') or (n == 'mu' and key in ('rsi',))))
     if 'mu' in p and 'L' in p:
@@ -131,6 +138,8 @@ def build(env, spec):
         Ls = [env.real("L%d" % k, lo=0, lo_strict=True) for k in range(d)]
         f = pep.declare_function(BlockSmoothConvexFunction, partition=part, L=Ls)
         m.params.update({"L%d" % k: Ls[k] for k in range(d)})
+        if spec.get('second_partition'):
+            m.partition2 = pep.declare_block_partition(d=spec['second_partition'])
     else:
         cls, p = class_params(env, spec['fclass'])
         m.params.update(p)
@@ -186,6 +195,8 @@ def build(env, spec):
         m.points['x%d' % (si + 1)] = x
     if spec['fclass'] == 'linop' and not spec.get('partition'):
         f.T.gradient(x0)        # (a LinearOperator without any sample of its transpose makes a 0x0 LMI that cvxpy rejects)
+    if spec.get('second_partition'):
+        m.partition2.get_block(x0, 0)      # a second partition that only decomposes the starting point
     fx = F.value(x) if spec.get('value_metric', True) else None
     # user constraints, written in all the ways the DSL allows
     e = (x - xs) ** 2
@@ -220,6 +231,10 @@ def build(env, spec):
             M = [[a, t], [(x0 ** 2) / 2, 2]]
         elif lk == 'nonsym2b':          # same form in (0,1) and (1,0), written with the products mirrored
             M = [[e, x0 * x + t], [x * x0 + t, a]]
+        elif lk == 'nonsym-const':      # (0,1) and (1,0) are different expressions with different constant terms
+            t2 = Expression()
+            m.exprs['t%d_b' % li] = t2
+            M = [[e, t - a], [t2, 1]]
         elif lk == 'one':
             M = [[a - t]]
         elif lk == 'three':
